@@ -100,6 +100,8 @@ def _get_index(name: str) -> IX.Index:
             files = C.K_SINGLE
         elif name == "EMPTY":
             files = C.K_EMPTY
+        elif name == "BIG":
+            files = C.big_corpus()
         elif name.startswith("POOL"):
             files = C.pool_subset(int(name[4:]))
         else:
@@ -216,6 +218,12 @@ def _cases(ctx):
                 continue  # plain pairs are covered above
             for atoms in it.product(core, repeat=nleaves):
                 cases.append(["K1", Q.fill(shape, list(atoms)), False])
+    # a large index: more matching notes than any list-size limit of a query layer
+    for a in (["desc", "Widget", '"', False, False], ["desc", "Widget", '"', False, True],
+              ["desc", "widget", "'", True, True], ["desc", "gadget", "'", True, True],
+              ["desc", "widget", "'", False, True], ["kind", "o"], ["link", "wb", True], ["file", "w*", True]):
+        cases.append(["BIG", [[a]], False])
+    cases.append(["BIG", [[["desc", "Widget", '"', False, True], ["kind", "-"]]], False])
     if not ctx.quick:
         for mask in range(64):
             for a in A:
